@@ -66,7 +66,7 @@ def run_config(cfg):
     res = core.Result(cfg)
     core.begin()
     in_specs, impl, ref = case(cfg)
-    lincheck.check_linear(res, cfg, dict(biort=cfg['biort'], qshift=cfg['qshift'], J=cfg['J']), in_specs, impl, ref, what='DTCWT forward')
+    lincheck.check_linear(res, cfg, dict(biort=cfg['biort'], qshift=cfg['qshift'], J=cfg['J']), in_specs, impl, ref, oracle_offset=True, what='DTCWT forward')
     return res
 
 
